@@ -1,9 +1,24 @@
 /-
   Props/C10.lean — The static-route shortcut is unobservable.
-  (the full `shortcut_unobservable` theorem over all histories is added as the proof development
-  proceeds; DESIGN.md §5/C10)
+
+  Quantifier: every regular-expression engine `E`, every history `ops` of router operations
+  (`RouterOp`: registration for a method list, `Headers`, `Name`; applied from `newRouter()` by
+  `Router.run`, exactly as the driver's `step` applies the model functions), every request
+  (any method, any byte string as path, any headers).  Guard (`HistoryOK`, spelled out in the
+  theorem statements): every registered route is as the parser produces it (`ParsedSeg`) and every
+  registration has its own handle — the harness and the Go code give every registration its own
+  handler / `*Route` object and its own leaves.
+
+  Proof structure (Proofs/ShortcutTree.lean, Proofs/Shortcut.lean): the router invariant `RInv`
+  says that every entry `(method, text) ↦ leaf` of the table lies at the end of a *static path* of
+  the method's tree whose literals spell `text`, that `text` is the leaf's route text, and that the
+  leaf has no header constraints.  (a) On such a path the matcher returns exactly that leaf and no
+  parameters (`matchNext_staticPath`: siblings are sorted with static first and keys determine
+  literals).  (b) The text splits back into the path's literals (`segs_renderLits`).  (c) Every
+  operation keeps the invariant (`rinv_add`, `rinv_setHeaders` — using `C09.headers_evict_shortcut`
+  —, `rinv_setName`).
 -/
-import Flamego.Proofs.Assoc
+import Flamego.Proofs.Shortcut
 
 namespace Flamego.C10
 
@@ -17,5 +32,158 @@ theorem miss_falls_through (E : Engine) (R : Router) (req : Request)
 theorem no_table_no_difference (E : Engine) (R : Router) (req : Request) (h : R.statics = []) :
     R.serve E req = R.serveTreeOnly E req := by
   simp [Router.serve, h, assocGet]
+
+/-- **the shortcut table is an invisible optimisation** — "for every history of registrations,
+    header-constraint updates and requests, each request's outcome (chosen route, parameters, or
+    not-found) is identical to what full tree matching gives for the same method and path":
+    `serve` (table first, then the tree) and `serveTreeOnly` return the same `Outcome` — the same
+    leaf with the same parameter list, or not-found — for every request, whatever its path
+    (extra leading slashes, a trailing slash, a '?' …) and headers. -/
+theorem shortcut_unobservable (E : Engine) (ops : List RouterOp)
+    (hparsed : ∀ hr ∈ addPairs ops, ∀ s ∈ hr.2.segs, ParsedSeg s = true)
+    (hdistinct : ((addPairs ops).map Prod.fst).Nodup) (req : Request) :
+    (Router.run E ops).serve E req = (Router.run E ops).serveTreeOnly E req :=
+  (run_inv E ops ⟨hparsed, hdistinct⟩).serve_eq E req
+
+theorem addPairs_append (pre post : List RouterOp) :
+    addPairs (pre ++ post) = addPairs pre ++ addPairs post := by
+  induction pre with
+  | nil => rfl
+  | cons op pre ih => cases op <;> simp [addPairs, ih]
+
+/-- requests interleaved with the operations: serving does not change the router, so a request
+    issued after the prefix `pre` of a history sees `Router.run E pre`; it is answered as the tree
+    answers, at every point of every (guarded) history -/
+theorem shortcut_unobservable_at (E : Engine) (pre post : List RouterOp)
+    (hparsed : ∀ hr ∈ addPairs (pre ++ post), ∀ s ∈ hr.2.segs, ParsedSeg s = true)
+    (hdistinct : ((addPairs (pre ++ post)).map Prod.fst).Nodup) (req : Request) :
+    (Router.run E pre).serve E req = (Router.run E pre).serveTreeOnly E req := by
+  rw [addPairs_append] at hparsed hdistinct
+  rw [List.map_append] at hdistinct
+  exact shortcut_unobservable E pre
+    (fun hr h => hparsed hr (List.mem_append_left _ h)) (List.nodup_append.mp hdistinct).1 req
+
+/-- what a hit in the table is: the entry's leaf, no parameters but `route` — and full tree
+    matching on the same method and path finds the same leaf with the same parameters -/
+theorem table_hit_outcome (E : Engine) (ops : List RouterOp)
+    (hparsed : ∀ hr ∈ addPairs ops, ∀ s ∈ hr.2.segs, ParsedSeg s = true)
+    (hdistinct : ((addPairs ops).map Prod.fst).Nodup) (req : Request) (leaf : Leaf)
+    (hhit : assocGet (Router.run E ops).statics (req.method, req.path) = some leaf) :
+    (Router.run E ops).serve E req = .handler leaf [(B "route", leaf.route.render)] ∧
+    (Router.run E ops).serveTreeOnly E req = .handler leaf [(B "route", leaf.route.render)] := by
+  have h := shortcut_unobservable E ops hparsed hdistinct req
+  have h1 : (Router.run E ops).serve E req = .handler leaf [(B "route", leaf.route.render)] := by
+    simp [Router.serve, hhit]
+  exact ⟨h1, by rw [← h]; exact h1⟩
+
+/-- **the keys of the table are plain route texts** — "including paths with extra leading slashes,
+    trailing slashes, or characters that are route syntax such as '?'": a key of the table is the
+    route text of its leaf, it contains no '?', it starts with exactly one '/', and it is the
+    canonical spelling "/" + segment … of its own segments (so a path with extra leading slashes or
+    an extra trailing slash is a key only if it is itself that route text).  The leaf is flagged
+    all-static, is the long form of a route whose last segment is not optional, and carries no
+    header constraints. -/
+theorem statics_keys_plain (E : Engine) (ops : List RouterOp)
+    (hparsed : ∀ hr ∈ addPairs ops, ∀ s ∈ hr.2.segs, ParsedSeg s = true)
+    (hdistinct : ((addPairs ops).map Prod.fst).Nodup) (m : String) (text : Bytes) (leaf : Leaf)
+    (hhit : assocGet (Router.run E ops).statics (m, text) = some leaf) :
+    text = leaf.route.render ∧ (63 : UInt8) ∉ text ∧ (∃ p, text = 47 :: p) ∧
+    (∀ p, text ≠ 47 :: 47 :: p) ∧ renderLits (splitSlash (trimLeftSlash text)) = text ∧
+    leaf.allStatic = true ∧ leaf.long = true ∧ lastOptional leaf.route = false ∧
+    assocGet (Router.run E ops).hdrs leaf.hid = none := by
+  have he := (run_inv E ops ⟨hparsed, hdistinct⟩).table m text leaf hhit
+  obtain ⟨t, lits, _, hp, hg, hr⟩ := he.path
+  subst hr
+  refine ⟨he.route.symm, renderLits_no_qmark hg, renderLits_head hp.ne_nil,
+    renderLits_no_double_slash hg, ?_, he.static, he.long, he.noopt, he.nohdr⟩
+  rw [segs_renderLits hg hp.ne_nil]
+
+/-- a path with extra leading slashes never hits the table: it is decided by the tree (which
+    ignores the extra slashes) in `serve` just as in `serveTreeOnly` -/
+theorem extra_leading_slashes_miss (E : Engine) (ops : List RouterOp)
+    (hparsed : ∀ hr ∈ addPairs ops, ∀ s ∈ hr.2.segs, ParsedSeg s = true)
+    (hdistinct : ((addPairs ops).map Prod.fst).Nodup) (m : String) (p : Bytes) :
+    assocGet (Router.run E ops).statics (m, 47 :: 47 :: p) = none := by
+  cases h : assocGet (Router.run E ops).statics (m, 47 :: 47 :: p) with
+  | none => rfl
+  | some leaf =>
+    exact absurd rfl ((statics_keys_plain E ops hparsed hdistinct m _ leaf h).2.2.2.1 p)
+
+/-- a path containing '?' never hits the table -/
+theorem question_mark_misses (E : Engine) (ops : List RouterOp)
+    (hparsed : ∀ hr ∈ addPairs ops, ∀ s ∈ hr.2.segs, ParsedSeg s = true)
+    (hdistinct : ((addPairs ops).map Prod.fst).Nodup) (m : String) (path : Bytes)
+    (hq : (63 : UInt8) ∈ path) :
+    assocGet (Router.run E ops).statics (m, path) = none := by
+  cases h : assocGet (Router.run E ops).statics (m, path) with
+  | none => rfl
+  | some leaf => exact absurd hq (statics_keys_plain E ops hparsed hdistinct m _ leaf h).2.1
+
+/-- a path with a trailing slash hits the table only through a route whose own text has it -/
+theorem trailing_slash_hits_only_itself (E : Engine) (ops : List RouterOp)
+    (hparsed : ∀ hr ∈ addPairs ops, ∀ s ∈ hr.2.segs, ParsedSeg s = true)
+    (hdistinct : ((addPairs ops).map Prod.fst).Nodup) (m : String) (p : Bytes) (leaf : Leaf)
+    (hhit : assocGet (Router.run E ops).statics (m, p ++ [47]) = some leaf) :
+    leaf.route.render = p ++ [47] :=
+  (statics_keys_plain E ops hparsed hdistinct m _ leaf hhit).1.symm
+
+/-! ### the guard on the handles cannot be dropped -/
+
+def cexE : Engine := ⟨fun _ => some 0, fun _ _ => none, fun _ _ => false⟩
+
+/-- `/a` registered under handle 1, `Headers` on handle 1, then `/b` registered under handle 1 again -/
+def cexOps : List RouterOp :=
+  [.add 1 ⟨[⟨false, [.ident (B "a")]⟩]⟩ ["GET"], .headers 1 [⟨B "X", B "X", B "1"⟩],
+   .add 1 ⟨[⟨false, [.ident (B "b")]⟩]⟩ ["GET"]]
+
+def cexReq : Request := ⟨"GET", B "/b", []⟩
+
+/-- with one handle used for two registrations (which neither the harness nor the Go API can
+    produce — every `*Route` has its own leaves and its own header matcher), `Headers` on the first
+    also constrains the second's leaf in the tree, while the table serves it unconditionally: the
+    hypothesis `hdistinct` of `shortcut_unobservable` is needed -/
+theorem distinct_handles_needed :
+    (∀ hr ∈ addPairs cexOps, ∀ s ∈ hr.2.segs, ParsedSeg s = true) ∧
+    (Router.run cexE cexOps).serve cexE cexReq ≠ (Router.run cexE cexOps).serveTreeOnly cexE cexReq := by
+  refine ⟨by decide, ?_⟩
+  have h2 : (Router.run cexE cexOps).serveTreeOnly cexE cexReq = .notFound :=
+    serveTreeOnly_single_notFound cexE _ cexReq (B "b") (by decide) (by decide)
+  have h1 : (assocGet (Router.run cexE cexOps).statics (cexReq.method, cexReq.path)).isSome = true := by
+    decide
+  rw [h2]
+  unfold Router.serve
+  cases hg : assocGet (Router.run cexE cexOps).statics (cexReq.method, cexReq.path) with
+  | none => rw [hg] at h1; cases h1
+  | some leaf => intro h; cases h
+
+/-! ### non-vacuity -/
+
+def exE : Engine := ⟨fun _ => some 0, fun _ _ => none, fun _ _ => false⟩
+
+def lit (t : String) : Segment := ⟨false, [.ident (B t)]⟩
+
+/-- `/a/b` (static) for GET and POST, `/a/?c` (static, optional last segment) and `/a/{x}` (dynamic)
+    for GET, `Headers` on the optional route, `Name` on the static one -/
+def exOps : List RouterOp :=
+  [.add 1 ⟨[lit "a", lit "b"]⟩ ["GET", "POST"], .add 2 ⟨[lit "a", ⟨true, [.ident (B "c")]⟩]⟩ ["GET"],
+   .add 3 ⟨[lit "a", ⟨false, [.bind (B "x")]⟩]⟩ ["GET"],
+   .headers 2 [⟨B "X", B "X", B "1"⟩], .name 1 (B "n")]
+
+/-- the hypotheses of `shortcut_unobservable` hold for this history, the static route is in the
+    table for both methods and the other two are not; after `Headers` on the static route it is
+    evicted for both methods -/
+example :
+    (∀ hr ∈ addPairs exOps, ∀ s ∈ hr.2.segs, ParsedSeg s = true) ∧
+    ((addPairs exOps).map Prod.fst).Nodup ∧
+    (assocGet (Router.run exE exOps).statics ("GET", B "/a/b")).isSome = true ∧
+    (assocGet (Router.run exE exOps).statics ("POST", B "/a/b")).isSome = true ∧
+    (Router.run exE exOps).statics.length = 2 ∧
+    (Router.run exE (exOps ++ [.headers 1 []])).statics.length = 0 := by
+  refine ⟨by decide, by decide, by decide, by decide, by decide, by decide⟩
+
+/-- and the theorem applies to it: the table hit for `GET /a/b` is what the tree gives -/
+example : (Router.run exE exOps).serveTreeOnly exE ⟨"GET", B "/a/b", []⟩ =
+    (Router.run exE exOps).serve exE ⟨"GET", B "/a/b", []⟩ :=
+  (shortcut_unobservable exE exOps (by decide) (by decide) _).symm
 
 end Flamego.C10
